@@ -71,7 +71,16 @@ template <bool NoneIsLeaf>
                                                  const py::function& unflatten_func,
                                                  const py::object& path_entry_type,
                                                  const std::string& registry_namespace) {
-    if (sm_builtins_types.find(cls) != sm_builtins_types.end()) [[unlikely]] {
+    // NOTE: never run Python code (e.g., `repr()`, attribute lookups, `warnings.warn()`) while
+    // holding `sm_mutex`. It may release the GIL, and another thread that then acquires the GIL
+    // and blocks on `sm_mutex` (e.g., in `Lookup()`) would deadlock the interpreter. The lock is
+    // only held around the accesses to the registries.
+    bool is_builtin = false;
+    {
+        const scoped_read_lock_guard lock{sm_mutex};
+        is_builtin = (sm_builtins_types.find(cls) != sm_builtins_types.end());
+    }
+    if (is_builtin) [[unlikely]] {
         throw py::value_error("PyTree type " + PyRepr(cls) +
                               " is a built-in type and cannot be re-registered.");
     }
@@ -84,7 +93,12 @@ template <bool NoneIsLeaf>
     registration->unflatten_func = py::reinterpret_borrow<py::function>(unflatten_func);
     registration->path_entry_type = py::reinterpret_borrow<py::object>(path_entry_type);
     if (registry_namespace.empty()) [[unlikely]] {
-        if (!registry->m_registrations.emplace(cls, std::move(registration)).second) [[unlikely]] {
+        bool inserted = false;
+        {
+            const scoped_write_lock_guard lock{sm_mutex};
+            inserted = registry->m_registrations.emplace(cls, std::move(registration)).second;
+        }
+        if (!inserted) [[unlikely]] {
             throw py::value_error("PyTree type " + PyRepr(cls) +
                                   " is already registered in the global namespace.");
         }
@@ -108,13 +122,21 @@ template <bool NoneIsLeaf>
         }
         if (warned < 0) [[unlikely]] {
             // The warning was turned into an exception: a failed call must not register.
-            registry->m_registrations.erase(cls);
+            {
+                const scoped_write_lock_guard lock{sm_mutex};
+                registry->m_registrations.erase(cls);
+            }
             throw py::error_already_set();
         }
     } else [[likely]] {
-        if (!registry->m_named_registrations
-                 .emplace(std::make_pair(registry_namespace, cls), std::move(registration))
-                 .second) [[unlikely]] {
+        bool inserted = false;
+        {
+            const scoped_write_lock_guard lock{sm_mutex};
+            inserted = registry->m_named_registrations
+                           .emplace(std::make_pair(registry_namespace, cls), std::move(registration))
+                           .second;
+        }
+        if (!inserted) [[unlikely]] {
             std::ostringstream oss{};
             oss << "PyTree type " << PyRepr(cls) << " is already registered in namespace "
                 << PyRepr(registry_namespace) << ".";
@@ -144,7 +166,10 @@ template <bool NoneIsLeaf>
         }
         if (warned < 0) [[unlikely]] {
             // The warning was turned into an exception: a failed call must not register.
-            registry->m_named_registrations.erase(std::make_pair(registry_namespace, cls));
+            {
+                const scoped_write_lock_guard lock{sm_mutex};
+                registry->m_named_registrations.erase(std::make_pair(registry_namespace, cls));
+            }
             throw py::error_already_set();
         }
     }
@@ -155,8 +180,6 @@ template <bool NoneIsLeaf>
                                              const py::function& unflatten_func,
                                              const py::object& path_entry_type,
                                              const std::string& registry_namespace) {
-    const scoped_write_lock_guard lock{sm_mutex};
-
     RegisterImpl<NONE_IS_NODE>(cls,
                                flatten_func,
                                unflatten_func,
@@ -183,15 +206,29 @@ template <bool NoneIsLeaf>
 /*static*/ PyTreeTypeRegistry::RegistrationPtr PyTreeTypeRegistry::UnregisterImpl(
     const py::object& cls,
     const std::string& registry_namespace) {
-    if (sm_builtins_types.find(cls) != sm_builtins_types.end()) [[unlikely]] {
+    // NOTE: see the note in `RegisterImpl()`: do not run Python code while holding `sm_mutex`.
+    bool is_builtin = false;
+    {
+        const scoped_read_lock_guard lock{sm_mutex};
+        is_builtin = (sm_builtins_types.find(cls) != sm_builtins_types.end());
+    }
+    if (is_builtin) [[unlikely]] {
         throw py::value_error("PyTree type " + PyRepr(cls) +
                               " is a built-in type and cannot be unregistered.");
     }
 
     PyTreeTypeRegistry* const registry = Singleton<NoneIsLeaf>();
     if (registry_namespace.empty()) [[unlikely]] {
-        const auto it = registry->m_registrations.find(cls);
-        if (it == registry->m_registrations.end()) [[unlikely]] {
+        RegistrationPtr registration{nullptr};
+        {
+            const scoped_write_lock_guard lock{sm_mutex};
+            const auto it = registry->m_registrations.find(cls);
+            if (it != registry->m_registrations.end()) [[likely]] {
+                registration = it->second;
+                registry->m_registrations.erase(it);
+            }
+        }
+        if (!registration) [[unlikely]] {
             std::ostringstream oss{};
             oss << "PyTree type " << PyRepr(cls) << " ";
             if (IsStructSequenceClass(cls)) [[unlikely]] {
@@ -205,13 +242,19 @@ template <bool NoneIsLeaf>
             }
             throw py::value_error(oss.str());
         }
-        RegistrationPtr registration = it->second;
-        registry->m_registrations.erase(it);
         return registration;
     } else [[likely]] {
-        const auto named_it =
-            registry->m_named_registrations.find(std::make_pair(registry_namespace, cls));
-        if (named_it == registry->m_named_registrations.end()) [[unlikely]] {
+        RegistrationPtr registration{nullptr};
+        {
+            const scoped_write_lock_guard lock{sm_mutex};
+            const auto named_it =
+                registry->m_named_registrations.find(std::make_pair(registry_namespace, cls));
+            if (named_it != registry->m_named_registrations.end()) [[likely]] {
+                registration = named_it->second;
+                registry->m_named_registrations.erase(named_it);
+            }
+        }
+        if (!registration) [[unlikely]] {
             std::ostringstream oss{};
             oss << "PyTree type " << PyRepr(cls) << " ";
             if (IsStructSequenceClass(cls)) [[unlikely]] {
@@ -226,16 +269,12 @@ template <bool NoneIsLeaf>
             oss << "in namespace " << PyRepr(registry_namespace) << ".";
             throw py::value_error(oss.str());
         }
-        RegistrationPtr registration = named_it->second;
-        registry->m_named_registrations.erase(named_it);
         return registration;
     }
 }
 
 /*static*/ void PyTreeTypeRegistry::Unregister(const py::object& cls,
                                                const std::string& registry_namespace) {
-    const scoped_write_lock_guard lock{sm_mutex};
-
     const auto registration1 = UnregisterImpl<NONE_IS_NODE>(cls, registry_namespace);
     const auto registration2 = UnregisterImpl<NONE_IS_LEAF>(cls, registry_namespace);
     EXPECT_TRUE(registration1->type.is(registration2->type));
